@@ -35,6 +35,7 @@ import (
 	"time"
 
 	intoto "github.com/in-toto/in-toto-golang/in_toto"
+	"github.com/secure-systems-lab/go-securesystemslib/cjson"
 	"verif/harness/lib"
 )
 
@@ -66,7 +67,7 @@ func far() time.Time { return time.Now().Add(10 * 365 * 24 * time.Hour) }
 // of every "foreign" certificate a CA that this process's system trust store contains.
 func newWorld(sysCA *lib.CA) *world {
 	w := &world{leaves: map[string]*certFn{}}
-	for _, n := range []string{"rsa2048", "rsa3072", "ecdsa256", "ecdsa384", "ed1", "ed2", "ed3", "ed4", "ed5", "ed6"} {
+	for _, n := range []string{"rsa2048", "rsa3072", "ecdsa256", "ecdsa384", "ed1", "ed2", "ed3", "ed4", "ed5", "ed6", "ecdsa521"} {
 		w.pool = append(w.pool, lib.GetKeyPair(n))
 	}
 	w.root = lib.NewCA("root", nil, lib.CertOpts{NotAfter: far()})
@@ -84,7 +85,11 @@ func newWorld(sysCA *lib.CA) *world {
 		w.leaves[name] = &certFn{name: name, leaf: ca.NewLeaf(o), under: under, expired: expired, cn: o.CN, orgs: o.Orgs}
 	}
 	mk("alice", w.inter, "inter", lib.CertOpts{CN: "alice", Orgs: []string{"acme"}}, false)
-	mk("bob", w.inter, "inter", lib.CertOpts{CN: "bob"}, false)
+	mk("bob", w.inter, "inter", lib.CertOpts{CN: "bob", KeyKind: "ecdsa384"}, false)
+	// certificate functionaries on the remaining key kinds (keys cached on disk: RSA generation is slow)
+	w.leaves["frank"] = leafForKey(w.inter, "inter", lib.GetKeyPair("ecdsa521-leaf-frank"), "frank", "frank", nil)
+	w.leaves["grace"] = leafForKey(w.root, "root", lib.GetKeyPair("rsa2048-leaf-grace"), "grace", "grace", nil)
+	w.leaves["heidi"] = leafForKey(w.inter, "inter", lib.GetKeyPair("rsa3072-leaf-heidi"), "heidi", "heidi", []string{"acme"})
 	mk("carol", w.root, "root", lib.CertOpts{CN: "carol", KeyKind: "ed25519"}, false)
 	mk("dave", w.inter, "inter", lib.CertOpts{CN: "alice", Orgs: []string{"acme"},
 		NotBefore: time.Now().Add(-48 * time.Hour), NotAfter: time.Now().Add(-24 * time.Hour)}, true)
@@ -103,7 +108,42 @@ func newWorld(sysCA *lib.CA) *world {
 	w.leaves["alice-lookalike"] = lookalikeLeaf(w.leaves["alice"], lookInter, "alice-lookalike")
 	w.leaves["bob-lookalike"] = lookalikeLeaf(w.leaves["bob"], lookInter, "bob-lookalike")
 	w.leaves["carol-lookalike"] = lookalikeLeaf(w.leaves["carol"], lookRoot, "carol-lookalike")
+	// the harness signs by itself (Go's crypto directly): private halves by key id
+	for _, kp := range w.pool {
+		signers.Store(kp.Pub.KeyID, kp.Signer)
+	}
+	for _, f := range w.leaves {
+		signers.Store(f.leaf.Key.KeyID, f.leaf.Signer)
+	}
 	return w
+}
+
+var signers sync.Map // key id -> crypto.Signer
+
+var honestCerts = []string{"alice", "bob", "carol", "frank", "grace", "heidi"}
+
+// leafForKey: a certificate of ca for an existing key pair
+func leafForKey(ca *lib.CA, under string, kp lib.KeyPair, name, cn string, orgs []string) *certFn {
+	rogueSerial++
+	tmpl := &x509.Certificate{
+		SerialNumber: big.NewInt(rogueSerial),
+		Subject:      pkix.Name{CommonName: cn, Organization: orgs},
+		NotBefore:    time.Now().Add(-time.Hour), NotAfter: far(),
+		KeyUsage: x509.KeyUsageDigitalSignature,
+	}
+	der, err := x509.CreateCertificate(rand.Reader, tmpl, ca.Cert, kp.Signer.Public(), ca.Signer)
+	if err != nil {
+		panic(err)
+	}
+	c, err := x509.ParseCertificate(der)
+	if err != nil {
+		panic(err)
+	}
+	p := pem.EncodeToMemory(&pem.Block{Type: "CERTIFICATE", Bytes: der})
+	k := kp.Priv
+	k.KeyVal.Certificate = string(p)
+	return &certFn{name: name, leaf: lib.Leaf{Cert: c, Signer: kp.Signer, CertPEM: p, KeyPEM: kp.PrivPEM, Key: k},
+		under: under, cn: cn, orgs: orgs}
 }
 
 type fakeCA struct {
@@ -408,35 +448,59 @@ func dumpMB(mb *intoto.Metablock) []byte {
 	return b
 }
 
+// rawSign appends the signature of key k over the canonical form of mb.Signed, made with Go's crypto
+// directly (lib.SignRaw) — the library's Sign is not used to produce test inputs
+func rawSign(mb *intoto.Metablock, k intoto.Key) {
+	sg, ok := signers.Load(k.KeyID)
+	if !ok {
+		panic("no private key registered for " + k.KeyID)
+	}
+	msg, err := cjson.EncodeCanonical(mb.Signed)
+	if err != nil {
+		panic(err)
+	}
+	mb.Signatures = append(mb.Signatures, intoto.Signature{KeyID: k.KeyID,
+		Sig: hex.EncodeToString(lib.SignRaw(sg.(crypto.Signer), msg)), Certificate: k.KeyVal.Certificate})
+}
+
 func signedMB(step string, keys ...intoto.Key) *intoto.Metablock {
 	mb := &intoto.Metablock{Signed: baseLink(step), Signatures: []intoto.Signature{}}
 	for _, k := range keys {
-		if err := mb.Sign(k); err != nil {
-			panic(err)
-		}
+		rawSign(mb, k)
 	}
 	return mb
 }
 
-func dsseBytes(step string, keys ...intoto.Key) []byte {
-	env := &intoto.Envelope{}
-	if err := env.SetPayload(baseLink(step)); err != nil {
+type dsseSig struct {
+	KeyID string `json:"keyid"`
+	Sig   string `json:"sig"`
+}
+type dsseOut struct {
+	PayloadType string    `json:"payloadType"`
+	Payload     string    `json:"payload"`
+	Signatures  []dsseSig `json:"signatures"`
+}
+
+// dsseOf: a DSSE envelope file around payload, signed over PAE(type, canonical payload) with Go's crypto directly
+func dsseOf(payload any, keys ...intoto.Key) []byte {
+	body, err := cjson.EncodeCanonical(payload)
+	if err != nil {
 		panic(err)
 	}
+	d := dsseOut{PayloadType: intoto.PayloadType, Payload: base64.StdEncoding.EncodeToString(body), Signatures: []dsseSig{}}
 	for _, k := range keys {
-		if err := env.Sign(k); err != nil {
-			panic(err)
+		sg, ok := signers.Load(k.KeyID)
+		if !ok {
+			panic("no private key registered for " + k.KeyID)
 		}
+		d.Signatures = append(d.Signatures, dsseSig{KeyID: k.KeyID,
+			Sig: base64.StdEncoding.EncodeToString(lib.SignRaw(sg.(crypto.Signer), lib.PAE(d.PayloadType, body)))})
 	}
-	tmp, _ := os.CreateTemp("", "c02dsse")
-	tmp.Close()
-	defer os.Remove(tmp.Name())
-	if err := env.Dump(tmp.Name()); err != nil {
-		panic(err)
-	}
-	b, _ := os.ReadFile(tmp.Name())
+	b, _ := json.MarshalIndent(d, "", "  ")
 	return b
 }
+
+func dsseBytes(step string, keys ...intoto.Key) []byte { return dsseOf(baseLink(step), keys...) }
 
 func tamperLegacy(b []byte) []byte {
 	var m map[string]any
@@ -509,6 +573,16 @@ func (w *world) certItem(st stepShape, sc *scenario, f *certFn, label string) *i
 	return it
 }
 
+func (w *world) bundleItem(st stepShape, sc *scenario, f *certFn) *item {
+	mb := signedMB(st.name, f.leaf.Key)
+	mb.Signatures[0].Certificate += string(w.inter.PEM)
+	it := &item{name: linkName(st.name, f.leaf.Key.KeyID), content: dumpMB(mb), label: "cert-with-bundled-intermediate"}
+	if w.certAuthorised(f, st, sc) {
+		it.honest = f.leaf.Key.KeyID
+	}
+	return it
+}
+
 func makers() []maker {
 	leafItem := func(name, label string) maker {
 		return maker{label, func(w *world, sc *scenario, st stepShape, r *lib.Rng) *item {
@@ -552,6 +626,14 @@ func makers() []maker {
 		leafItem("alice", "cert-alice"),
 		leafItem("bob", "cert-bob"),
 		leafItem("carol", "cert-carol-under-root"),
+		leafItem("frank", "cert-frank-p521"),
+		leafItem("grace", "cert-grace-rsa2048-under-root"),
+		leafItem("heidi", "cert-heidi-rsa3072"),
+		// the signature's cert field holds the leaf FOLLOWED BY the intermediate CA certificate: an unsigned field under the
+		// signer's control is no source of intermediates — authorised only if layout / caller supply the intermediate
+		{"cert-with-bundled-intermediate", func(w *world, sc *scenario, st stepShape, r *lib.Rng) *item {
+			return w.bundleItem(st, sc, w.leaves[[]string{"alice", "bob", "frank", "heidi"}[r.Intn(4)]])
+		}},
 		leafItem("dave", "cert-expired"),
 		leafItem("eve", "cert-foreign-root"),
 		// a certificate for the key of a genuine functionary issued by the foreign root / self-signed
@@ -578,7 +660,7 @@ func makers() []maker {
 			return &item{name: linkName(st.name, id), content: b, label: "case-variant-key-id"}
 		}},
 		{"case-variant-cert-key-id", func(w *world, sc *scenario, st stepShape, r *lib.Rng) *item {
-			f := w.leaves[[]string{"alice", "bob", "carol"}[r.Intn(3)]]
+			f := w.leaves[honestCerts[r.Intn(len(honestCerts))]]
 			b, id := caseVariant(w.certItem(st, sc, f, "").content, r.Bool())
 			return &item{name: linkName(st.name, id), content: b, label: "case-variant-cert-key-id"}
 		}},
@@ -600,7 +682,7 @@ func makers() []maker {
 		}},
 		// F1 witness: copy of a certificate link, first signature {keyid: fake, sig: any, cert: C}, stored under the fake id
 		{"F1-forged-cert-copy", func(w *world, sc *scenario, st stepShape, r *lib.Rng) *item {
-			f := w.leaves[[]string{"alice", "bob", "carol"}[r.Intn(3)]]
+			f := w.leaves[honestCerts[r.Intn(len(honestCerts))]]
 			mb := signedMB(st.name, f.leaf.Key)
 			fake := fakeID(r)
 			forged := intoto.Signature{KeyID: fake, Sig: mb.Signatures[0].Sig, Certificate: mb.Signatures[0].Certificate}
@@ -644,9 +726,7 @@ func makers() []maker {
 			b := cached("sublayout|"+kp.Name, func() []byte {
 				mb := &intoto.Metablock{Signed: intoto.Layout{Type: "layout", Steps: []intoto.Step{}, Inspect: []intoto.Inspection{},
 					Keys: map[string]intoto.Key{}, Expires: "2035-01-01T00:00:00Z"}, Signatures: []intoto.Signature{}}
-				if err := mb.Sign(kp.Priv); err != nil {
-					panic(err)
-				}
+				rawSign(mb, kp.Priv)
 				return dumpMB(mb)
 			})
 			it := &item{name: linkName(st.name, kp.Pub.KeyID), content: b, label: "layout-as-link"}
@@ -736,7 +816,7 @@ func makers() []maker {
 			if i := pickKey(st, sc, r, true, w); i >= 0 && r.Chance(2, 3) {
 				honest = w.keyItem(st, sc, i, "key-authorised")
 			} else {
-				honest = w.certItem(st, sc, w.leaves[[]string{"alice", "bob", "carol"}[r.Intn(3)]], "cert")
+				honest = w.certItem(st, sc, w.leaves[honestCerts[r.Intn(len(honestCerts))]], "cert")
 			}
 			sc.addItem(st, honest)
 			return strayOf(st, honest, r.Intn(3), []int{9, 10, 16, 33, 64}[r.Intn(5)])
@@ -862,16 +942,69 @@ func witnessScenarios(w *world, r *lib.Rng) []*scenario {
 		out = append(out, sc)
 	}
 	// F2: one key link + one certificate link, threshold 2 (both orders of the key prefixes occur over the pool)
-	for i := 0; i < 8; i++ {
+	for i := 0; i < len(w.pool); i++ {
 		sc := &scenario{klass: "F2-mixed-key-and-cert", defined: map[int]bool{i: true}, items: map[string][]item{}, roots: "root", interIn: "layout"}
 		st := stepShape{name: "build", threshold: 2, pubkeys: []int{i}, ccs: []intoto.CertificateConstraint{ccAll()}}
 		sc.steps = []stepShape{st}
 		sc.addItem(st, w.keyItem(st, sc, i, "key-authorised"))
-		sc.addItem(st, w.certItem(st, sc, w.leaves[[]string{"alice", "bob", "carol"}[i%3]], "cert"))
+		sc.addItem(st, w.certItem(st, sc, w.leaves[honestCerts[i%len(honestCerts)]], "cert"))
 		if i >= 4 {
-			sc.addItem(st, w.certItem(st, sc, w.leaves["alice"], "cert-alice"))
-			sc.addItem(st, w.certItem(st, sc, w.leaves["bob"], "cert-bob"))
+			sc.addItem(st, w.certItem(st, sc, w.leaves[honestCerts[(i+1)%len(honestCerts)]], "cert"))
+			sc.addItem(st, w.certItem(st, sc, w.leaves[honestCerts[(i+2)%len(honestCerts)]], "cert"))
 			sc.steps[0].threshold = 3
+		}
+		out = append(out, sc)
+	}
+	{ // every key kind through both routes and both wrappers: all honest, threshold = all
+		sc := &scenario{klass: "all-key-kinds-both-routes", defined: map[int]bool{}, items: map[string][]item{}, roots: "root", interIn: "layout"}
+		s1 := stepShape{name: "build", ccs: []intoto.CertificateConstraint{ccAll()}}
+		s2 := stepShape{name: "test"}
+		for i := range w.pool {
+			sc.defined[i] = true
+			s1.pubkeys = append(s1.pubkeys, i)
+			s2.pubkeys = append(s2.pubkeys, i)
+		}
+		s1.threshold = len(w.pool) + len(honestCerts)
+		s2.threshold = len(w.pool)
+		sc.steps = []stepShape{s1, s2}
+		for i := range w.pool {
+			sc.addItem(s1, w.keyItem(s1, sc, i, "key-authorised"))
+			kp := w.pool[i]
+			b := cached("dsse|"+s2.name+"|"+kp.Name, func() []byte { return dsseBytes(s2.name, kp.Priv) })
+			sc.addItem(s2, &item{name: linkName(s2.name, kp.Pub.KeyID), content: b, label: "dsse-key", honest: kp.Pub.KeyID})
+		}
+		for _, n := range honestCerts {
+			sc.addItem(s1, w.certItem(s1, sc, w.leaves[n], "cert-"+n))
+		}
+		out = append(out, sc)
+	}
+	// the intermediate CA is supplied ONLY inside a link signature's cert field (leaf + intermediate): neither the layout
+	// nor the caller lists it, so nothing under it is authorised — not the bundling link, not later plain links
+	for v := 0; v < 6; v++ {
+		sc := &scenario{klass: "bundled-intermediate-in-cert-field", defined: map[int]bool{}, items: map[string][]item{}, roots: "root", interIn: "none"}
+		s1 := stepShape{name: "build", threshold: 1, ccs: []intoto.CertificateConstraint{ccAll()}}
+		s2 := stepShape{name: "test", threshold: 1, ccs: []intoto.CertificateConstraint{ccAll()}}
+		bundler := w.leaves[[]string{"alice", "alice", "heidi", "bob", "frank", "heidi"}[v]]
+		plain := w.leaves[[]string{"bob", "bob", "alice", "frank", "bob", "alice"}[v]]
+		switch v {
+		case 0, 4: // alone
+			sc.steps = []stepShape{s1}
+			sc.addItem(s1, w.bundleItem(s1, sc, bundler))
+		case 1, 5: // followed in a later step by a plain certificate under the same missing intermediate
+			sc.steps = []stepShape{s1, s2}
+			sc.addItem(s1, w.bundleItem(s1, sc, bundler))
+			sc.addItem(s2, w.certItem(s2, sc, plain, "cert-plain-missing-intermediate"))
+		case 2: // with an honest functionary (directly under the root) in both steps: the counted sets must be exactly that one
+			sc.steps = []stepShape{s1, s2}
+			sc.addItem(s1, w.certItem(s1, sc, w.leaves["carol"], "cert-carol-under-root"))
+			sc.addItem(s1, w.bundleItem(s1, sc, bundler))
+			sc.addItem(s2, w.certItem(s2, sc, w.leaves["carol"], "cert-carol-under-root"))
+			sc.addItem(s2, w.certItem(s2, sc, plain, "cert-plain-missing-intermediate"))
+		default: // same step (map order decides who is visited first)
+			sc.steps = []stepShape{s1}
+			sc.addItem(s1, w.certItem(s1, sc, w.leaves["grace"], "cert-grace-rsa2048-under-root"))
+			sc.addItem(s1, w.bundleItem(s1, sc, bundler))
+			sc.addItem(s1, w.certItem(s1, sc, plain, "cert-plain-missing-intermediate"))
 		}
 		out = append(out, sc)
 	}
@@ -1195,12 +1328,8 @@ func showVerified(l intoto.Layout, res map[string]map[string]intoto.Metadata) st
 
 var stdoutMu sync.Mutex
 
-func runOnce(l intoto.Layout, dir string, inter [][]byte) string {
+func runOnce(l intoto.Layout, dir string, rp, ip *x509.CertPool) string {
 	return lib.Recover(func() string {
-		rp, ip, err := intoto.LoadLayoutCertificates(l, inter)
-		if err != nil {
-			return "CERTS"
-		}
 		sm, err := intoto.LoadLinksForLayout(l, dir)
 		if err != nil {
 			return "REJECT"
@@ -1215,11 +1344,7 @@ func runOnce(l intoto.Layout, dir string, inter [][]byte) string {
 	})
 }
 
-func runRepeated(l intoto.Layout, dir string, inter [][]byte) string {
-	seen := map[string]int{}
-	for i := 0; i < repeats; i++ {
-		seen[runOnce(l, dir, inter)]++
-	}
+func summarise(seen map[string]int) string {
 	if len(seen) == 1 {
 		for k := range seen {
 			return k
@@ -1247,11 +1372,36 @@ func runImpl(in input, dir string) string {
 	for _, p := range in.Intermediates {
 		inter = append(inter, []byte(p))
 	}
-	out := "ALL=" + runRepeated(copyLayout(in.Layout), dir, inter)
-	for i := range in.Layout.Steps {
+	n := len(in.Layout.Steps)
+	seen := make([]map[string]int, n+1)
+	for i := range seen {
+		seen[i] = map[string]int{}
+	}
+	for rep := 0; rep < repeats; rep++ {
+		// the whole layout on one LoadLayoutCertificates result (as InTotoVerify does) ...
 		l := copyLayout(in.Layout)
-		l.Steps = []intoto.Step{l.Steps[i]}
-		out += ";S=" + runRepeated(l, dir, inter)
+		rp, ip, err := intoto.LoadLayoutCertificates(l, inter)
+		if err != nil {
+			seen[0]["CERTS"]++
+		} else {
+			seen[0][runOnce(l, dir, rp, ip)]++
+		}
+		// ... then every step on its own, one call each, all on ONE further pair of pools: a call must not
+		// leave anything behind in the pools that a later call with the same pools can see
+		rp, ip, err = intoto.LoadLayoutCertificates(copyLayout(in.Layout), inter)
+		for i := 0; i < n; i++ {
+			l1 := copyLayout(in.Layout)
+			l1.Steps = []intoto.Step{l1.Steps[i]}
+			if err != nil {
+				seen[i+1]["CERTS"]++
+			} else {
+				seen[i+1][runOnce(l1, dir, rp, ip)]++
+			}
+		}
+	}
+	out := "ALL=" + summarise(seen[0])
+	for i := 0; i < n; i++ {
+		out += ";S=" + summarise(seen[i+1])
 	}
 	if in.E2E {
 		out += ";V=" + runE2E(in, dir, inter, false) + ";VD=" + runE2E(in, dir, inter, true)
@@ -1266,18 +1416,25 @@ func runE2E(in input, dir string, inter [][]byte, withDir bool) string {
 	owner := lib.GetKeyPair("ed-c02-layout-owner")
 	one := func() string {
 		return lib.Recover(func() string {
-			var env intoto.Metadata
+			signers.Store(owner.Pub.KeyID, owner.Signer)
+			var lb []byte
 			if in.DSSELayout {
-				e := &intoto.Envelope{}
-				if err := e.SetPayload(copyLayout(in.Layout)); err != nil {
-					return "SETUP-ERROR"
-				}
-				env = e
+				lb = dsseOf(copyLayout(in.Layout), owner.Priv)
 			} else {
-				env = &intoto.Metablock{Signed: copyLayout(in.Layout), Signatures: []intoto.Signature{}}
+				mb := &intoto.Metablock{Signed: copyLayout(in.Layout), Signatures: []intoto.Signature{}}
+				rawSign(mb, owner.Priv)
+				lb = dumpMB(mb)
 			}
-			if err := env.Sign(owner.Priv); err != nil {
+			tmp, e1 := os.CreateTemp("", "c02-layout-")
+			if e1 != nil {
 				return "SETUP-ERROR"
+			}
+			tmp.Write(lb)
+			tmp.Close()
+			defer os.Remove(tmp.Name())
+			env, e1 := intoto.LoadMetadata(tmp.Name())
+			if e1 != nil {
+				return "SETUP-ERROR(layout does not load)"
 			}
 			keys := map[string]intoto.Key{owner.Pub.KeyID: owner.Pub}
 			var err error
